@@ -220,7 +220,8 @@ class IMAPConnection:
                 try:
                     resp_dec = b64decode(resp_bytes)
                 except binascii.Error as exc:
-                    raise AuthenticationError() from exc
+                    raise AuthenticationError(
+                        'Invalid authentication response.') from exc
                 else:
                     responses.append(ChallengeResponse(chal.data, resp_dec))
             else:
